@@ -32,8 +32,23 @@ def parse(log):
             cur["demo_without"] = line.split(":", 1)[1].strip()
     return out
 
+# all runs of one mutant (same directory name), in the order of the logs given
+history = {}
 for log in sys.argv[1:]:
     for m in parse(log):
+        history.setdefault(os.path.basename(m["dir"]), []).append(m)
+
+def rank(m):
+    # re-evaluations were run from copies under x*/ (last round), w*/ (earlier rounds)
+    d = os.path.basename(os.path.dirname(m["dir"]))
+    return (2 if d.startswith("x") else 1 if d.startswith("w") else 0, d)
+
+for name, runs in history.items():
+    runs.sort(key=rank)
+    for m in [runs[-1]]:
+        earlier_missed = any(
+            not any((c["violations"] or 0) > 0 for c in r["checks"] if c["check"] == r["id"]) for r in runs[:-1]
+        )
         src = m["dir"]
         if not m["apply"] or not os.path.exists(f"{src}/patch.diff"):
             print("skip (does not apply)", src); continue
@@ -54,8 +69,13 @@ for log in sys.argv[1:]:
         if caught:
             sigs = sorted({c["signature"] for c in caught if c["signature"]})
             cb = f"caught by ./check {m['id']} quick on {len(caught)} of {len(own)} seeds (VIOLATION lines: {', '.join(str(c['violations']) for c in own)}); first signature(s): {'; '.join(sigs)}"
+            if earlier_missed:
+                cb = "first missed, caught after the check was strengthened (see DESIGN.md 8.5): " + cb
         else:
+            others = [c for c in m["checks"] if c["check"] != m["id"] and (c["violations"] or 0) > 0]
             cb = f"NOT caught by ./check {m['id']} quick (seeds 1, 2)"
+            if others:
+                cb += "; caught by " + ", ".join(sorted({f"./check {c['check']} quick ({c['signature']})" for c in others}))
         meta = {
             "property": m["id"],
             "author": "independent sub-agent given only the property text and its own git worktree of /repo",
